@@ -23,7 +23,7 @@ theorem lax_extends_strict (d : Dialect) (t : ATy) (p : FP) (bs : Bytes) (v : AV
   rw [h] at this
   exact this
 
-example : parseField ⟨false, false, false⟩ .strict (.struct false (.cons {} .int64 (.cons { optional := true } .str .nil))) {}
+example : parseField ⟨false, false, false, false⟩ .strict (.struct false (.cons {} .int64 (.cons { optional := true } .str .nil))) {}
     [0x30, 0x03, 0x02, 0x01, 0x05, 0xAA] = .ok (.struct none [.int 5, .absent (.str 0 [])], [0xAA]) := by rfl
 
 /-- **lax adds only the documented malformations.** If lax accepts an input that strict rejects, the
@@ -39,15 +39,15 @@ theorem lax_only_documented (d : Dialect) (t : ATy) (p : FP) (bs : Bytes) (x : A
   · exact h
 
 -- the three documented relaxations, nested two levels deep
-example : parseField ⟨false, false, false⟩ .strict (.seqOf false (.struct false (.cons {} .int64 .nil))) {} [0x30, 0x06, 0x30, 0x04, 0x02, 0x02, 0x00, 0x05]
+example : parseField ⟨false, false, false, false⟩ .strict (.seqOf false (.struct false (.cons {} .int64 .nil))) {} [0x30, 0x06, 0x30, 0x04, 0x02, 0x02, 0x00, 0x05]
     = .error (.intNotMinimal [0x00, 0x05]) := by rfl
-example : parseField ⟨false, false, false⟩ .lax (.seqOf false (.struct false (.cons {} .int64 .nil))) {} [0x30, 0x06, 0x30, 0x04, 0x02, 0x02, 0x00, 0x05]
+example : parseField ⟨false, false, false, false⟩ .lax (.seqOf false (.struct false (.cons {} .int64 .nil))) {} [0x30, 0x06, 0x30, 0x04, 0x02, 0x02, 0x00, 0x05]
     = .ok (.list [.struct none [.int 5]], []) := by rfl
-example : parseField ⟨true, true, true⟩ .strict .oid {} [0x06, 0x00] = .error .oidEmpty ∧
-    parseField ⟨true, true, true⟩ .lax .oid {} [0x06, 0x00] = .ok (.oid [], []) := ⟨rfl, rfl⟩
-example : parseField ⟨true, true, true⟩ .strict .str {} [0x13, 0x02, 0x41, 0xe9] = .error (.printable [0x41, 0xe9]) ∧
-    parseField ⟨true, true, true⟩ .lax .str {} [0x13, 0x02, 0x41, 0xe9] = .ok (.str 19 [0x41, 0xc3, 0xa9], []) := ⟨rfl, rfl⟩
+example : parseField ⟨true, true, true, true⟩ .strict .oid {} [0x06, 0x00] = .error .oidEmpty ∧
+    parseField ⟨true, true, true, true⟩ .lax .oid {} [0x06, 0x00] = .ok (.oid [], []) := ⟨rfl, rfl⟩
+example : parseField ⟨true, true, true, true⟩ .strict .str {} [0x13, 0x02, 0x41, 0xe9] = .error (.printable [0x41, 0xe9]) ∧
+    parseField ⟨true, true, true, true⟩ .lax .str {} [0x13, 0x02, 0x41, 0xe9] = .ok (.str 19 [0x41, 0xc3, 0xa9], []) := ⟨rfl, rfl⟩
 -- neither ISO 8859-1 nor T.61: lax rejects as well
-example : ∃ e, parseField ⟨true, true, true⟩ .lax .str {} [0x13, 0x03, 0x41, 0x00, 0x23] = .error e := ⟨_, rfl⟩
+example : ∃ e, parseField ⟨true, true, true, true⟩ .lax .str {} [0x13, 0x03, 0x41, 0x00, 0x23] = .error e := ⟨_, rfl⟩
 
 end C10
